@@ -366,6 +366,11 @@ func runEpochPass(p *Program, ei int, opt *Options, plan bool) *epochRun {
 	// result stability: everything the library returned still reads the same
 	for ti, rs := range e.results {
 		for oi, r := range rs {
+			if r.Err != nil {
+				if now := r.Err.Error(); now != r.ErrText {
+					e.addViol(VUnstable, ep.Tasks[ti].Ops[oi].Kind, fmt.Sprintf("the error returned read %.120q at the time and %.120q later (a shared error value that somebody modified)", r.ErrText, now), ti, oi)
+				}
+			}
 			for _, k := range r.keeps {
 				if !k.stale() && k.current() != k.copyOf {
 					e.addViol(VUnstable, ep.Tasks[ti].Ops[oi].Kind, fmt.Sprintf("%s returned %.60q, which later read %.60q", k.what, k.copyOf, k.current()), ti, oi)
